@@ -483,6 +483,11 @@ impl Stream for ServerStream {
                 let r = if *which == "main" { self.rt.add(n) } else { self.srt.add(n) };
                 r.to_string()
             }
+            ["rtdel", which, idh] => {
+                let id = Id::from_bytes(arr::<20>(&unhex(idh))).expect("id");
+                if *which == "main" { self.rt.remove(&id) } else { self.srt.remove(&id) };
+                "ok".into()
+            }
             ["know", k, msg, sig] => {
                 if !verify(&arr(&unhex(k)), &unhex(msg), &arr(&unhex(sig))) {
                     panic!("harness bug: `know` line with a signature that does not verify");
@@ -781,6 +786,8 @@ pub fn run(out: &mut Out, seed: u64, thorough: bool, replay: Option<&str>) {
                 }
             }
             let fa = addr_s(&from);
+            #[allow(clippy::type_complexity)]
+            let mut follow: Option<(Vec<u8>, [u8; 20], Vec<u8>, [u8; 32], usize, i64, [u8; 64], Option<Vec<u8>>)> = None;
             let line = match g.rng.below(100) {
                 0..=4 => format!("req {fa} ping {rid}"),
                 5..=9 => format!("req {fa} find_node {rid} {}", hex(&g.rng.id20())),
@@ -889,6 +896,7 @@ pub fn run(out: &mut Out, seed: u64, thorough: bool, replay: Option<&str>) {
                         out.run(&mut s, key);
                     }
                     g.targets.push(tg);
+                    follow = Some((tok.clone(), tg, v.clone(), declared_k, kidx, seq, sig, declared_salt.clone()));
                     format!(
                         "req {fa} put_mut {rid} {} {} {} {} {} {} {} {}",
                         hexz(&tok),
@@ -904,6 +912,72 @@ pub fn run(out: &mut Out, seed: u64, thorough: bool, replay: Option<&str>) {
             };
             let reply = out.run(&mut s, line);
             record_tokens(&mut g, &from, &reply, now_rel);
+            // an accepted mutable put is followed up on the SAME sequence number: the stored item's
+            // signature with another value (a forgery: 206, the item stays), the same item again
+            // (accepted), another validly signed value of that seq (accepted, replaces), each read back
+            if let Some((tok, tg, v, k, kidx, seq, sig, salt)) = follow {
+                if reply.starts_with("ping") && g.rng.chance(1, 2) {
+                    let salt_s = salt.as_ref().map(|x| hexz(x)).unwrap_or("none".into());
+                    let mut v2 = v.clone();
+                    if v2.is_empty() { v2.push(1) } else { v2[0] ^= 0x55 }
+                    let variant = g.rng.below(4);
+                    let (vv, ss) = match variant {
+                        0 => (v2.clone(), sig),              // stored signature, other value
+                        1 => (v.clone(), sig),               // the same item again
+                        2 => {
+                            // another value, validly signed, same seq
+                            let msg = signable_mutable(seq, &v2, salt.as_deref());
+                            let sg = g.keys[kidx].sign(&msg).to_bytes();
+                            let key = format!("know {} {} {}", hex(&k), hex(&msg), hex(&sg));
+                            if k == g.keys[kidx].verifying_key().to_bytes() && g.known.insert(key.clone()) {
+                                out.run(&mut s, key);
+                            }
+                            (v2.clone(), sg)
+                        }
+                        _ => {
+                            // stored signature and value, lower seq (a roll-back that re-uses the signature)
+                            (v.clone(), sig)
+                        }
+                    };
+                    let sq = if variant == 3 { seq.wrapping_sub(1) } else { seq };
+                    let cas = if g.rng.chance(1, 3) { seq.to_string() } else { "none".into() };
+                    out.run(&mut s, format!("req {fa} put_mut {rid} {} {} {} {} {} {} {} {}", hexz(&tok), hex(&tg), hexz(&vv), hex(&k), sq, hex(&ss), salt_s, cas));
+                    out.run(&mut s, format!("req {fa} get {rid} {} none", hex(&tg)));
+                }
+            }
+            // the same question twice, with the routing table changed in between but not its size: a
+            // server answers from the table it has now
+            if !table_nodes.is_empty() && g.rng.chance(1, 12) {
+                let tgt = if g.rng.chance(1, 2) { *g.rng.pick(&info_hashes) } else { g.rng.id20() };
+                let ask = |g: &mut Gen| match g.rng.below(3) {
+                    0 => format!("req {fa} get_peers {rid} {}", hex(&tgt)),
+                    1 => format!("req {fa} get {rid} {} none", hex(&tgt)),
+                    _ => format!("req {fa} find_node {rid} {}", hex(&tgt)),
+                };
+                let q1 = ask(&mut g);
+                out.run(&mut s, q1.clone());
+                for which in ["main", "signed"] {
+                    // drop the entry closest to the target, add one that is closer still
+                    let mut best: Option<(usize, [u8; 20])> = None;
+                    for (i, (idh, _)) in table_nodes.iter().enumerate() {
+                        let idb: [u8; 20] = arr(&unhex(idh));
+                        let mut d = [0u8; 20];
+                        for j in 0..20 { d[j] = idb[j] ^ tgt[j]; }
+                        if best.map(|(_, b)| d < b).unwrap_or(true) { best = Some((i, d)); }
+                    }
+                    if let Some((i, _)) = best {
+                        let (idh, _) = table_nodes[i].clone();
+                        out.run(&mut s, format!("rtdel {which} {idh}"));
+                        let mut nid = tgt;
+                        nid[19] ^= 1 + g.rng.below(200) as u8;
+                        nid[18] ^= g.rng.below(256) as u8;
+                        let a = SocketAddrV4::new(Ipv4Addr::from(0x30000000 | g.rng.next() as u32 & 0x0fffffff), 1 + g.rng.below(60000) as u16);
+                        out.run(&mut s, format!("rtadd {which} {} {}", hex(&nid), addr_s(&a)));
+                        if which == "signed" { table_nodes.remove(i); table_nodes.push((hex(&nid), a)); }
+                    }
+                }
+                out.run(&mut s, q1);
+            }
             if g.rng.chance(1, 9) {
                 let ns = *g.rng.pick(&[1u64, 1_000_000_000, 44_999_999_000, 60_000_000_000, 299_999_999_999, 300_000_000_000, 300_000_000_001, 600_000_000_001]);
                 out.run(&mut s, format!("adv {ns}"));
